@@ -1,0 +1,145 @@
+// Copyright 2026 The Jujutsu Authors
+//
+// Licensed under the Apache License, Version 2.0 (the "License");
+// you may not use this file except in compliance with the License.
+// You may obtain a copy of the License at
+//
+// https://www.apache.org/licenses/LICENSE-2.0
+//
+// Unless required by applicable law or agreed to in writing, software
+// distributed under the License is distributed on an "AS IS" BASIS,
+// WITHOUT WARRANTIES OR CONDITIONS OF ANY KIND, either express or implied.
+// See the License for the specific language governing permissions and
+// limitations under the License.
+
+//! Instrumentation for external verification harnesses (cargo feature
+//! `verif-hooks`, off by default).
+//!
+//! Nothing in here changes behaviour unless it is driven: yield points
+//! complete immediately unless a scheduler is attached to the calling thread,
+//! and crash points do nothing unless `JJ_VERIF_CRASH_AT` or
+//! `JJ_VERIF_CRASH_LOG` is set in the environment.
+
+#![expect(missing_docs)]
+
+use std::cell::Cell;
+use std::io::Write as _;
+use std::pin::Pin;
+use std::sync::Mutex;
+use std::sync::OnceLock;
+use std::task::Context;
+use std::task::Poll;
+
+thread_local! {
+    static SCHEDULER_ATTACHED: Cell<bool> = const { Cell::new(false) };
+    static LOCK_DISABLED: Cell<bool> = const { Cell::new(false) };
+    static LAST_YIELD: Cell<Option<&'static str>> = const { Cell::new(None) };
+}
+
+/// Declares that the calling thread is driven by a cooperative scheduler that
+/// polls futures itself and wants `yield_point()` to suspend.
+pub fn set_scheduler_attached(attached: bool) {
+    SCHEDULER_ATTACHED.with(|cell| cell.set(attached));
+}
+
+pub fn scheduler_attached() -> bool {
+    SCHEDULER_ATTACHED.with(|cell| cell.get())
+}
+
+/// Makes the op-heads lock a no-op on the calling thread (models a file system
+/// where locking is ineffective).
+pub fn set_lock_disabled(disabled: bool) {
+    LOCK_DISABLED.with(|cell| cell.set(disabled));
+}
+
+pub fn lock_disabled() -> bool {
+    LOCK_DISABLED.with(|cell| cell.get())
+}
+
+/// Returns (and clears) the label of the yield point that most recently
+/// suspended a future on the calling thread.
+pub fn take_last_yield() -> Option<&'static str> {
+    LAST_YIELD.with(|cell| cell.take())
+}
+
+/// Future returned by [`yield_point()`].
+#[derive(Debug)]
+pub struct YieldPoint {
+    label: &'static str,
+    yielded: bool,
+}
+
+impl Future for YieldPoint {
+    type Output = ();
+
+    fn poll(mut self: Pin<&mut Self>, _cx: &mut Context<'_>) -> Poll<()> {
+        if self.yielded || !scheduler_attached() {
+            return Poll::Ready(());
+        }
+        self.yielded = true;
+        LAST_YIELD.with(|cell| cell.set(Some(self.label)));
+        // The attached scheduler polls explicitly, so no waker is registered.
+        Poll::Pending
+    }
+}
+
+/// Suspends the calling future once if a scheduler is attached to the thread;
+/// otherwise completes immediately.
+pub fn yield_point(label: &'static str) -> YieldPoint {
+    YieldPoint {
+        label,
+        yielded: false,
+    }
+}
+
+struct CrashConfig {
+    crash_at: Option<u64>,
+    log: Option<Mutex<std::fs::File>>,
+    count: Mutex<u64>,
+}
+
+fn crash_config() -> Option<&'static CrashConfig> {
+    static CONFIG: OnceLock<Option<CrashConfig>> = OnceLock::new();
+    CONFIG
+        .get_or_init(|| {
+            let crash_at = std::env::var("JJ_VERIF_CRASH_AT")
+                .ok()
+                .and_then(|value| value.parse().ok());
+            let log = std::env::var_os("JJ_VERIF_CRASH_LOG").and_then(|path| {
+                std::fs::OpenOptions::new()
+                    .create(true)
+                    .append(true)
+                    .open(path)
+                    .ok()
+                    .map(Mutex::new)
+            });
+            (crash_at.is_some() || log.is_some()).then(|| CrashConfig {
+                crash_at,
+                log,
+                count: Mutex::new(0),
+            })
+        })
+        .as_ref()
+}
+
+/// Counts a durable-write point. When the count reaches `JJ_VERIF_CRASH_AT`,
+/// the process is terminated on the spot (no unwinding, no destructors, no
+/// buffered flushes), which has the effect of a `kill -9` at this point.
+pub fn crash_point(label: &str) {
+    let Some(config) = crash_config() else {
+        return;
+    };
+    let n = {
+        let mut count = config.count.lock().unwrap();
+        *count += 1;
+        *count
+    };
+    if let Some(log) = &config.log {
+        let mut file = log.lock().unwrap();
+        writeln!(file, "{n} {label}").ok();
+        file.flush().ok();
+    }
+    if config.crash_at == Some(n) {
+        std::process::abort();
+    }
+}
